@@ -781,6 +781,9 @@ def rule_numbytes(body, I, M):
     i, m = I.get("I", ""), M.get("M", "")
     if r["prop_ok"] and i.endswith("/ok") and m.endswith("/err"):
         r["prop_ok"], r["why"] = False, "accepted %s where the specification rejects the number as not fitting the target" % i[:80]
+    if r["prop_ok"] and i.endswith("/ok") and m.endswith("/ok") and i != m and body.startswith("unmbytes"):
+        # the store model is proved exact (C09.store_exact, untyped_exact): another accepted value is a changed number
+        r["prop_ok"], r["why"] = False, "stored %s, the exact value is %s" % (i[:80], m[:80])
     return r
 RULES["numbytes"] = rule_numbytes
 for _s in PROPS["C09"]["streams"]:
@@ -838,3 +841,42 @@ PROPS["C12"]["claim"] += (" Since C12Tagged the typed leg also covers atlases wi
     "tagged type: omitempty only on fields whose emptiness the round trip cannot change; transform pairs are retractions); without "
     "TagStab the statement is false in the model in exactly the way the property's equality tolerates (empty vs nil under omitempty): "
     "tagged_statement_false.")
+
+# C09 through Clone: integers cloned into variables of other integer kinds
+def rule_numclone(body, I, M):
+    r = rule_clone(body, I, M)
+    i, m = I.get("I", ""), M.get("M", "")
+    if r["prop_ok"] and i.endswith("/ok") and m.endswith("/err"):
+        r["prop_ok"], r["why"] = False, "accepted %s where the specification rejects the number as not fitting the target" % i[:80]
+    return r
+RULES["numclone"] = rule_numclone
+PROPS["C09"]["streams"].append(dict(name="numclone", gen="numclone", rule="numclone"))
+PROPS["C09"]["rule_text"] += ("; numclone: boundary integers of every integer kind cloned (refmt.Clone, source by value and by pointer) into "
+    "variables of every other numeric kind and untyped slots, and slices of them: result compared with the model (marshal by the source type, "
+    "unmarshal by the destination type) and checked exact by an arbitrary-precision oracle")
+
+# Long-lived instances are entry points of the same encoders, decoders and machines: the reuse histories (stream hist) also
+# run under the properties whose code they exercise (a decoder that mis-reads the item after a failed one violates C04, an
+# encoder that rejects the item after an empty container violates C14, an unmarshaller that keeps machines of a rejected
+# value violates C13).
+for _pid, _why in (("C04", "one long-lived cbor Unmarshaller / Decoder over several items, including items after failed ones"),
+                   ("C13", "one long-lived obj Unmarshaller re-bound after completed, rejected and abandoned values"),
+                   ("C07", "one long-lived obj Marshaller over several values, including values after runs abandoned at every Write position"),
+                   ("C14", "one long-lived encoder (through Marshaller) over several items, including items after empty containers and abandoned items")):
+    PROPS[_pid]["streams"].append(dict(name="hist", gen="hist", rule="hist"))
+    PROPS[_pid]["rule_text"] += "; hist: " + _why + " - every call compared with a fresh instance and with the model"
+
+# C08: the order stream's model output is the configured order (C08.sortKeys_sorted / sortKeys_unique: the unique sorted
+# permutation under the configured comparator); an accepted output with the same tokens in ANOTHER order is a violation of
+# the property itself, with the case as the failing input
+def rule_order(body, I, M):
+    r = rule_obj(body, I, M)
+    i, m = I.get("I", ""), M.get("M", "")
+    if r["prop_ok"] and i != m and i.endswith("/ok") and m.endswith("/ok") and sorted(i.split(",")) == sorted(m.split(",")):
+        r["prop_ok"] = False
+        r["why"] = "keys come out in another order than the configured one: %s, configured order gives %s" % (i[:200], m[:200])
+    return r
+RULES["order"] = rule_order
+for _s in PROPS["C08"]["streams"]:
+    if _s["name"] == "order":
+        _s["rule"] = "order"
